@@ -114,8 +114,8 @@ var jC03 = reg(&Judge{
 		Policies: []string{"", "no", "always", "on_failure"}, MaxRestartsMax: 3, BackoffMax: 2,
 		Probes: true, ReadyLines: true, MaxSteps: 8, Codes: []int{0, 1}, ShutdownStep: true,
 		SignalBeh: []string{"", "", "hold", "ignore"}, StartErr: true,
-		BackoffStops: true, HoldOps: []string{sc.OpShutdown},
-		Holds: []string{"run.enter", "run.afterTerminatingCheck", "run.afterWait", "run.afterBackoff", "runProcess.beforeWait", "runProcess.afterWait"}},
+		BackoffStops: true, HoldOps: []string{sc.OpShutdown}, APIOps: []string{sc.OpStop},
+		Holds: []string{"run.enter", "run.afterTerminatingCheck", "run.afterWait", "run.afterBackoff", "runProcess.beforeWait", "runProcess.afterWait", "run.loop"}},
 	Oracle: oracle.C03,
 	Classify: func(h *sc.History, x *oracle.Idx) (bool, []string) {
 		var labels []string
